@@ -22,6 +22,15 @@ impl Cfg {
     }
     /// A length used for "as long as the protocol allows" values: the full length at scale >= 1,
     /// shrunk (but never below 40, so that multi-byte length prefixes still occur) below that.
+    /// Below scale 1 the fixed-size parts (one-at-a-time sweeps, ordinal lists) are subsampled:
+    /// a case is kept with probability 100 x scale, at least 2 %.
+    pub fn keep(&self, rng: &mut Rng) -> bool {
+        if self.scale >= 1.0 {
+            return true;
+        }
+        let per_mille = ((self.scale * 100_000.0).ceil() as u64).clamp(20, 1000);
+        rng.chance(per_mille, 1000)
+    }
     pub fn cap(&self, n: usize) -> usize {
         if self.scale >= 1.0 { n } else { ((n as f64 * self.scale).ceil() as usize).max(40).min(n) }
     }
@@ -441,7 +450,7 @@ pub fn packet_case(packet: &str, fields: Map<String, Value>) -> Value {
 }
 
 /// One case per pool value of every field, the other fields at their typical value.
-pub fn sweep_cases(packet: &str, spec: &Spec, mut f: impl FnMut(Value)) {
+pub fn sweep_cases(packet: &str, spec: &Spec, cfg: &Cfg, rng: &mut Rng, mut f: impl FnMut(Value)) {
     if spec.is_empty() {
         f(packet_case(packet, Map::new()));
         return;
@@ -451,6 +460,9 @@ pub fn sweep_cases(packet: &str, spec: &Spec, mut f: impl FnMut(Value)) {
         for (i, v) in pool.iter().enumerate() {
             if i == 0 && *k != spec[0].0 {
                 continue; // the all-typical case is produced once, by the first field
+            }
+            if !(i == 0 || cfg.keep(rng)) {
+                continue;
             }
             let mut fields = defaults.clone();
             fields.insert(k.to_string(), v.clone());
@@ -485,13 +497,15 @@ pub fn enum_cases(rng: &mut Rng, cfg: &Cfg, fields: &[(&str, i32, i32)]) -> Vec<
     let mut out = vec![];
     for (field, lo, hi) in fields {
         let mut ords: Vec<i32> = (*lo..=*hi).collect();
-        ords.extend([lo - 1, -1, hi + 1, hi + 2, i32::MAX, i32::MIN, i32::MAX - 1, 127, 128, 255, 256]);
+        ords.extend([lo - 1, -1, hi + 1, i32::MAX]);
+        let mut more: Vec<i32> = vec![hi + 2, i32::MIN, i32::MAX - 1, 127, 128, 255, 256];
         // one bit above a defined ordinal (a reader that truncates the ordinal would accept these)
         for bit in 2..31 {
-            ords.push(lo + (1 << bit));
-            ords.push(hi + (1 << bit));
+            more.push(lo + (1 << bit));
+            more.push(hi + (1 << bit));
         }
-        ords.push(lo.wrapping_add(i32::MIN));
+        more.push(lo.wrapping_add(i32::MIN));
+        ords.extend(more.into_iter().filter(|_| cfg.keep(rng)));
         let extra = if cfg.thorough { cfg.scaled(2000) } else { cfg.scaled(200) };
         for _ in 0..extra {
             ords.push(rng.u32() as i32);
